@@ -83,13 +83,17 @@ def readall(flmax, nblocks):
     def h():
         core.FUEL.set(nblocks + 4)
         m, FL, k, d, F, P, total, f, u = _state(flmax, nblocks)
-        rp = {'kind': 'reads', 'args': {'FL': ev(FL), 'reads': [ev(d), None]}}
+        rp = {'kind': 'reads', 'args': {'FL': ev(FL), 'reads': [ev(d), None, 5, None]}}
         try:
             out = u.read()
         except core.OutOfFuel:
             fail('read() does not terminate', key='C05/hang', replay=rp)
         req_eq(out, P.cut(d, total) if not same_int(d, total) else b'', 'read() with no size did not return everything that remains',
                key='C05/readall', replay=rp)
+        again = u.read(5)
+        require(s_eq(rlen(again), 0), 'a read after read() returned data again', key='C05/readall-again', replay=rp)
+        again2 = u.read()
+        require(s_eq(rlen(again2), 0), 'a second read() returned data again', key='C05/readall-again', replay=rp)
         return {'sample': {'FL': ev(FL), 'k': ev(k), 'd': ev(d), 'returned': ev(rlen(out))}, 'replay': rp}
     return h
 
@@ -170,5 +174,5 @@ def obligations(tier):
         Ob('readall/read-without-size', readall(flmax, nb_state), 120, 'same states; read() with no argument', _funcs),
         Ob('unblock_1014/validation', validate(flmax, nb_state), 240,
            'arbitrary input of length 0..%d, arbitrary trailer bytes (peek table): accepted iff whole blocks with 0x40 0x40 trailers' % flmax, _funcs),
-        Ob('unblock_1014/inverts-block_1014', inverse(3100 if q else 7000, 5 if q else 8), 120, 'data length 0..%d' % (3100 if q else 7000), _funcs),
+        Ob('unblock_1014/inverts-block_1014', inverse(10200 if q else 20300, 12 if q else 22), 300, 'data length 0..%d' % (10200 if q else 20300), _funcs),
     ]
